@@ -42,6 +42,9 @@ type Config struct {
 	// ReloadAll: the reload modifies every rule of the resource (rule #i > 0 toggles between T and T+1), so
 	// several modified rules look for statistics to take over in the same load
 	ReloadAll bool `json:"reload_all,omitempty"`
+	// ThrottleFront: a permissive throttling rule (1000 per second, queueing up to 1 s) is listed in front of the
+	// reject rules: requests at one instant are queued by it and must still be checked by the rules behind it
+	ThrottleFront bool `json:"throttling_rule_in_front,omitempty"`
 }
 
 func (c Config) String() string {
@@ -148,9 +151,18 @@ func (s *scen) Reset() {
 		s.geoms = append(s.geoms, g)
 		s.lcm = s.lcm / gcd(s.lcm, g.iv) * g.iv
 	}
-	if _, err := flow.LoadRules(s.rules); err != nil {
+	if _, err := flow.LoadRules(s.loadList()); err != nil {
 		panic(err)
 	}
+}
+
+// loadList is the list handed to LoadRules: the reject rules, behind the throttling rule if the configuration has one.
+func (s *scen) loadList() []*flow.Rule {
+	if !s.cfg.ThrottleFront {
+		return s.rules
+	}
+	front := &flow.Rule{ID: "front", Resource: "a", TokenCalculateStrategy: flow.Direct, ControlBehavior: flow.Throttling, Threshold: 1000, MaxQueueingTimeMs: 1000}
+	return append([]*flow.Rule{front}, s.rules...)
 }
 
 func (s *scen) winSum(i int, now int64) int64 {
@@ -195,10 +207,10 @@ func (s *scen) Apply(i int) (string, string) {
 			ni.Threshold = s.th[i]
 			s.rules[i] = &ni
 		}
-		if _, err := flow.LoadRules(s.rules); err != nil {
+		if _, err := flow.LoadRules(s.loadList()); err != nil {
 			return "", "reload failed: " + err.Error()
 		}
-		if len(flow.GetRulesOfResource("a")) != len(s.rules) {
+		if len(flow.GetRulesOfResource("a")) != len(s.loadList()) {
 			return "", "after the reload the resource does not have all its rules"
 		}
 		return "", ""
@@ -393,6 +405,9 @@ func configs(quick bool) []Config {
 				out = append(out, Config{G: g.g, Rules: []RuleSpec{{2, k, false}}, T0: t0, ReloadT: 3})
 			}
 			out = append(out, Config{G: g.g, Rules: []RuleSpec{{3, g.kinds[5], false}, {2, 0, false}}, T0: t0, ReloadT: 1})
+			// a throttling rule in front of the reject rule(s)
+			out = append(out, Config{G: g.g, Rules: []RuleSpec{{2, 0, false}}, T0: t0, ThrottleFront: true})
+			out = append(out, Config{G: g.g, Rules: []RuleSpec{{3, g.kinds[5], false}, {2, 0, false}}, T0: t0, ThrottleFront: true})
 			// two modified rules with the same statistic parameters in one load (standalone window, and the default)
 			out = append(out, Config{G: g.g, Rules: []RuleSpec{{3, g.kinds[5], false}, {1, g.kinds[5], false}}, T0: t0, ReloadT: 2, ReloadAll: true})
 			out = append(out, Config{G: g.g, Rules: []RuleSpec{{3, 0, false}, {1, 0, false}}, T0: t0, ReloadT: 2, ReloadAll: true})
